@@ -30,6 +30,27 @@ def object_list(thorough):
     return out
 
 
+_ENC = []
+
+
+def under_encoder(target):
+    from cryptoparser.common.base import Serializable, SerializableTextEncoder
+    from .api import call
+
+    class Upper(SerializableTextEncoder):
+        def __call__(self, o, level):
+            is_complex, text = super(Upper, self).__call__(o, level)
+            return is_complex, text.upper() if isinstance(text, str) else text
+    if not _ENC:
+        _ENC.append(Upper())
+    saved = Serializable.post_text_encoder
+    Serializable.post_text_encoder = _ENC[0]
+    try:
+        return call(lambda o: o.as_markdown(), target)
+    finally:
+        Serializable.post_text_encoder = saved
+
+
 def main():
     env, order, thorough, path = int(sys.argv[1]), sys.argv[2], sys.argv[3] == '1', sys.argv[4]
     sys.path.insert(0, os.environ.get('VERIF_REPO', '/repo'))
@@ -51,8 +72,16 @@ def main():
         rec = {'ev': 'ser', 'env': env, 'oid': i + 1, 'cls': cls.__module__.replace('cryptoparser.', '') + '.' + cls.__qualname__}
         j1 = call(lambda o: o.as_json(), target)
         j2 = call(lambda o: o.as_json(), target)
+        # Markdown once more under an application-installed text encoder, before (even environments) or after (odd ones)
+        # the renderings under the default encoder: the text is a function of (object, installed encoder), not of which
+        # encoder was in place when the class was rendered for the first time
+        if env % 2 == 0:
+            me = under_encoder(target)
         m1 = call(lambda o: o.as_markdown(), target)
         m2 = call(lambda o: o.as_markdown(), target)
+        if env % 2:
+            me = under_encoder(target)
+        rec['md_enc'] = digest(me[1]) if me[0] == 'ok' and isinstance(me[1], str) else 'err:' + str(me[0])
         rec['json_ok'] = j1[0] == 'ok' and isinstance(j1[1], str)
         rec['json_err'] = j1[0]
         wf = False
@@ -79,7 +108,11 @@ def main():
             p = call(cls.parse_exact_size, bytes(c[1]))
             if p[0] == 'ok' and not isinstance(p[1], enum.Enum):
                 from .api import dig
-                if dig(p[1]) == dig(obj):
+                try:
+                    equal = bool(p[1] == obj)           # "equal objects" in the property's sense: the library's own ==
+                except Exception:  # pylint: disable=broad-except
+                    equal = False
+                if dig(p[1]) == dig(obj) or (equal and type(p[1]) is type(obj)):
                     t2 = p[1] if getattr(type(p[1]), 'as_markdown', None) is not None else objects.holder(p[1])
                     rj = call(lambda o: o.as_json(), t2)
                     rm = call(lambda o: o.as_markdown(), t2)
